@@ -247,10 +247,8 @@ impl Cluster {
         let res = self.rt.block_on(async move { process_multiple_changes(agent, bookie, items, Duration::from_secs(60)).await });
         match res {
             Ok(()) => {
-                if self.nodes[&n].alive {
-                    if let Err(e) = self.wait_quiescent(n) {
-                        return format!("inconclusive {e}");
-                    }
+                if let Err(e) = self.wait_quiescent(n) {
+                    return format!("inconclusive {e}");
                 }
                 "ok".into()
             }
@@ -289,24 +287,39 @@ impl Cluster {
                 e.0.push((a, b));
                 e.1 = e.1.max(l);
             }
-            // complete according to the in-memory partial (its last_seq is the first one seen)
+            // (a) a version whose in-memory partial is complete is waiting for the background apply (only while the
+            //     node's loops are alive); (b) rows of a version that has no incomplete in-memory partial are
+            //     waiting for the (always running) clear loop
+            let mut keys: std::collections::BTreeSet<(Vec<u8>, i64)> = per.keys().cloned().collect();
+            {
+                let mut st = conn.prepare("SELECT DISTINCT site_id, db_version FROM __corro_buffered_changes").map_err(|e| e.to_string())?;
+                let more: Vec<(Vec<u8>, i64)> =
+                    st.query_map([], |r| Ok((r.get(0)?, r.get(1)?))).and_then(|it| it.collect()).map_err(|e| e.to_string())?;
+                keys.extend(more);
+            }
             let mut pending = false;
-            for ((s, v), (ranges, _)) in &per {
+            let node = &self.nodes[&n];
+            for (s, v) in &keys {
                 let actor = ActorId(uuid::Uuid::from_slice(s).map_err(|e| e.to_string())?);
-                let node = &self.nodes[&n];
-                let complete = self.rt.block_on(async {
+                // Some(true) = complete partial, Some(false) = incomplete partial, None = no partial in memory
+                let st: Option<bool> = self.rt.block_on(async {
                     let b = node.bookie.read::<&str, _>("verif", None).await.get(&actor).cloned();
                     match b {
                         Some(b) => {
                             let r = b.read::<&str, _>("verif", None).await;
-                            r.partials.get(&CrsqlDbVersion(*v as u64)).map(|p| p.seqs.gaps(&(CrsqlSeq(0)..=p.last_seq)).count() == 0).unwrap_or(false)
+                            r.partials.get(&CrsqlDbVersion(*v as u64)).map(|p| p.seqs.gaps(&(CrsqlSeq(0)..=p.last_seq)).count() == 0)
                         }
-                        None => false,
+                        None => None,
                     }
                 });
-                let _ = ranges;
-                if complete {
-                    pending = true;
+                match st {
+                    Some(true) => {
+                        if node.alive {
+                            pending = true;
+                        }
+                    }
+                    Some(false) => {}
+                    None => pending = true,
                 }
             }
             if !pending {
@@ -481,7 +494,17 @@ impl Cluster {
         let gaps = q("SELECT actor_id, start, end FROM __corro_bookkeeping_gaps");
         let seqs = q("SELECT site_id, db_version, start_seq, end_seq, last_seq FROM __corro_seq_bookkeeping");
         let buf = q("SELECT site_id, db_version, seq FROM __corro_buffered_changes");
-        format!("mem[{}] gaps[{}] seqs[{}] buf[{}]", mem.join(" "), gaps.join(","), seqs.join(","), buf.join(","))
+        let dbv = q("SELECT site_id, db_version FROM crsql_db_versions");
+        let sites = q("SELECT site_id FROM crsql_site_id WHERE ordinal > 0");
+        format!(
+            "mem[{}] gaps[{}] seqs[{}] buf[{}] dbv[{}] sites[{}]",
+            mem.join(" "),
+            gaps.join(","),
+            seqs.join(","),
+            buf.join(","),
+            dbv.join(","),
+            sites.join(",")
+        )
     }
 
     pub fn kill(&mut self, n: usize) -> String {
